@@ -103,7 +103,7 @@ class StepMeter:
         r = self._codes.get(code)
         if r is None:
             fn = code.co_filename.replace("\\", "/")
-            r = "dissect/hypervisor" in fn
+            r = "/dissect/" in fn
             self._codes[code] = r
         return r
 
@@ -133,16 +133,14 @@ class StepMeter:
         self.budget = budget
         m.use_tool_id(self.TOOL, "verif-stepmeter")
         m.register_callback(self.TOOL, E.JUMP, self._on_jump)
-        m.register_callback(self.TOOL, E.BRANCH, self._on_jump)
         m.register_callback(self.TOOL, E.PY_START, self._on_start)
-        m.set_events(self.TOOL, E.JUMP | E.BRANCH | E.PY_START)
+        m.set_events(self.TOOL, E.JUMP | E.PY_START)
         m.restart_events()
         try:
             yield self
         finally:
             m.set_events(self.TOOL, 0)
             m.register_callback(self.TOOL, E.JUMP, None)
-            m.register_callback(self.TOOL, E.BRANCH, None)
             m.register_callback(self.TOOL, E.PY_START, None)
             m.free_tool_id(self.TOOL)
             self.budget = None
